@@ -1,1 +1,38 @@
-#[allow(unused_imports)] use super::*;
+#[allow(unused_imports)]
+use super::*;
+
+pub fn parse_public_key(s: &str) -> Result<Ed25519PublicKey, Error> {
+    Crypto::parse_public_key(s)
+}
+
+/// public key of the key pair a node builds from a printed private key
+pub fn parse_private_key(s: &str) -> Result<Vec<u8>, Error> {
+    Crypto::parse_private_key(s).map(|kp| kp.public_key().as_ref().to_vec())
+}
+
+pub fn parse_keypair(privkey: &str, pubkey: &str) -> Result<Vec<u8>, Error> {
+    Crypto::parse_keypair(privkey, pubkey).map(|kp| kp.public_key().as_ref().to_vec())
+}
+
+/// public key of the key pair a node derives from its password
+pub fn keypair_from_password(password: &str) -> Vec<u8> {
+    Crypto::keypair_from_password(password).public_key().as_ref().to_vec()
+}
+
+/// public key that ring derives from a 32-byte seed
+pub fn pub_from_seed(seed: &[u8]) -> Option<Vec<u8>> {
+    Ed25519KeyPair::from_seed_unchecked(seed).ok().map(|kp| kp.public_key().as_ref().to_vec())
+}
+
+/// A `Crypto` with prescribed cipher speeds (no timing measurement).
+pub fn crypto_with_speeds(
+    node_id: NodeId, key_pair: Arc<Ed25519KeyPair>, trusted_keys: Vec<Ed25519PublicKey>,
+    speeds: Vec<(&'static Algorithm, f32)>, allow_unencrypted: bool,
+) -> Crypto {
+    Crypto {
+        node_id,
+        key_pair,
+        trusted_keys: trusted_keys.into_boxed_slice().into(),
+        algorithms: Algorithms { algorithm_speeds: speeds.into_iter().collect(), allow_unencrypted },
+    }
+}
